@@ -677,6 +677,14 @@ func (fc *FuncCtx) compTerm(st *State, key, sort string) string {
 	if t, ok := st.heap[key]; ok && !strings.HasPrefix(t, "?") {
 		return t
 	}
+	if fc.eng.immutableKey(key) {
+		// a field that never changes after construction has one identity throughout; objects allocated by this
+		// activation are written through ordinary stores on top of it (their entries are set before use)
+		name := qsym("HI!" + key)
+		fc.u.declare(name, "(declare-fun "+name+" () "+sort+")")
+		st.heap[key] = name
+		return name
+	}
 	if strings.HasPrefix(key, "L!") && !fc.entryLocksSymbolic {
 		// no lock is held by this activation on entry (unless the contract requires held(...))
 		st.heap[key] = "((as const (Array Int Bool)) false)"
@@ -1102,6 +1110,9 @@ func (fc *FuncCtx) havocAll(st *State) {
 		if strings.HasPrefix(k, "L!") || strings.HasPrefix(k, "CH!") || strings.HasPrefix(k, "ONCE!") {
 			continue
 		}
+		if fc.eng.immutableKey(k) {
+			continue
+		}
 		if fc.isCellKey(k) && !fc.cellPassed(k) {
 			// variables of this function (escaping / captured cells) whose address was not handed to the callee
 			keepCells = append(keepCells, k)
@@ -1132,7 +1143,7 @@ func (fc *FuncCtx) cellPassed(key string) bool {
 func (fc *FuncCtx) havocKeys(st *State, match func(key string) bool, frame string) {
 	ep := fc.newEpoch()
 	for k, cur := range st.heap {
-		if !match(k) || strings.HasPrefix(k, "L!") {
+		if !match(k) || strings.HasPrefix(k, "L!") || fc.eng.immutableKey(k) {
 			continue
 		}
 		srt := fc.compSorts[k]
